@@ -22,7 +22,7 @@ struct C : FSM::State { void enter(PlanControl&) { *trace += "C.enter "; } void 
 static std::string observe(const FSM::Instance& m) {
 	std::string s = "active=" + std::to_string(m.activeStateId()) + " prev=" + std::to_string(m.previousTransition().destination) + "/" + std::to_string(m.previousTransition().origin)
 		+ (m.previousTransition().payload() ? "/p" + std::to_string(*m.previousTransition().payload()) : "") + " plan=[";
-	for (auto it = m.plan().begin(); it; ++it) s += std::to_string(it->origin) + ">" + std::to_string(it->destination) + ",";
+	auto pl_ = m.plan(); for (auto it = pl_.begin(); it; ++it) s += std::to_string(it->origin) + ">" + std::to_string(it->destination) + ",";
 	return s + "]";
 }
 static std::string script(unsigned char fill) {
